@@ -14,6 +14,7 @@ CONSTANTS
   MaxDepth = {MaxDepth}
   WithQueries = {WithQueries}
   WithMerge = {WithMerge}
+  Profile = "{Profile}"
 VIEW View
 CONSTRAINT Bound
 INVARIANT TypeOK
@@ -35,6 +36,7 @@ CONSTANTS
   MaxDepth = {MaxDepth}
   WithQueries = {WithQueries}
   WithMerge = {WithMerge}
+  Profile = "{Profile}"
 VIEW View
 CONSTRAINT Bound
 ACTION_CONSTRAINT LogStep
@@ -42,9 +44,9 @@ CHECK_DEADLOCK FALSE
 """
 
 
-def consts(gids, nids, cls=("K1", "K2"), rels=("r1", "r2"), depth=3, queries=True, merge=True):
+def consts(gids, nids, cls=("K1", "K2"), rels=("r1", "r2"), depth=3, queries=True, merge=True, profile="full"):
     return {"GIDS": tlc.tla_set(gids), "NIDS": tlc.tla_set(nids), "CLS": tlc.tla_set(cls), "RELS": tlc.tla_set(rels),
-            "MaxDepth": depth, "WithQueries": "TRUE" if queries else "FALSE", "WithMerge": "TRUE" if merge else "FALSE"}
+            "MaxDepth": depth, "WithQueries": "TRUE" if queries else "FALSE", "WithMerge": "TRUE" if merge else "FALSE", "Profile": profile}
 
 
 def model_check(rep, name, c, workers=16, timeout=3000):
@@ -107,7 +109,7 @@ class RandomStoreOps:
         names = self.r.sample(self.pnames + list(extra), k=min(k, len(self.pnames) + len(extra)))
         return {p: self.r.choice(self.vals) for p in names}
 
-    def op(self, have_doc):
+    def op(self, have_doc, tampered=False):
         r = self.r
         g, h = r.choice(self.gids), r.choice(self.gids)
         h2 = r.choice([x for x in self.gids if x != g])   # merging a graph with itself is outside the interface
@@ -126,7 +128,8 @@ class RandomStoreOps:
             ("DeleteGraph", 1, lambda: {"g": g}),
             ("DeleteAll", 0.2, lambda: {}),
             ("Export", 3, lambda: {"g": g}),
-            ("Import", 3 if have_doc else 0, lambda: {"entry": r.choice(["string", "file", "string_direct", "file_direct"]), "h": h}),
+            ("Import", 3 if have_doc else 0, lambda: {"entry": r.choice(["string", "file"] if tampered else ["string", "file", "string_direct", "file_direct"]), "h": h}),
+            ("Tamper", 0.6 if have_doc else 0, lambda: {"kind": r.choice(["drop_nodeid", "set_gid"]), "n": n, "g2": r.choice(self.gids + ["gX"])}),
             ("Clone", 2, lambda: {"g": g, "h": h}),
             ("MergeNodes", 2 if self.merge else 0, lambda: {"g": g, "n": n, "h": h2, "pol": r.choice([{}, {self.pnames[0]: "overwrite"}, {self.pnames[0]: "combine", "Name": "discard"}])}),
             ("GetNodeProps", 3, lambda: {"g": g, "n": n}),
@@ -146,10 +149,12 @@ class RandomStoreOps:
         return o
 
     def script(self, length):
-        s, have_doc = [], False
+        s, have_doc, tampered = [], False, False
         for _ in range(length):
-            o = self.op(have_doc)
+            o = self.op(have_doc, tampered)
             if o["op"] == "Export":
-                have_doc = True   # may still be 'nograph'; the spec then predicts the import failure
+                have_doc, tampered = True, False   # may still be 'nograph'; the spec then predicts the import failure
+            if o["op"] == "Tamper" and o["kind"] == "drop_nodeid":
+                tampered = True    # direct imports document node ids as a precondition: not fed tampered documents
             s.append(o)
         return s
